@@ -203,6 +203,11 @@ def main(argv=None):
             pid, path, v['suite'], v['kind'], json.dumps(v['sig'], sort_keys=True), v['msg'].splitlines()[0][:300] if v['msg'] else ''))
     if unknown:
         rc = 1
+    elif tot.lost > 0:
+        # more distinct violation signatures than a shard stores: some have no stored representative, so they cannot be matched
+        # against the known findings -> they count as unknown
+        print('VIOLATION property=%s replay=none :: %d violations with signatures beyond the per-shard storage cap (run the suite alone to see them)' % (pid, tot.lost))
+        rc = 1
     elif overflow > 0 and kf_hit:
         # all stored violations are known findings; the uncounted remainder is reported, not failed, only if
         # the module declares its known signature total (conservative otherwise)
